@@ -395,3 +395,30 @@ Example C08_ex_slow_after_cancel :
               classify_slow (hist s) (got x) 0 0 2 2 1 = true /\
               classify_slow (hist s) (got x) 0 0 2 2 0 = false.
 Proof. eexists. eexists. split; [vm_compute; reflexivity|]. repeat split; vm_compute; reflexivity. Qed.
+
+(* C08_result_composite_partial covers, like every theorem here, ALL schedules of the composite model - in
+   particular a child failure taken by Run() while a Reload() is in any of its phases ([CSelChild] is enabled
+   in [CPSelect] whatever [c_rl] is), and a child that fails in reaction to Stop()/cancel ([CChildFail] after
+   [CSelStop]/[CSelCancel]: nobody reads it).  Two such schedules: *)
+
+(* a child fails while a Reload() is between its callback and its final Transition(Running): Run() forces
+   Error from Reloading, the reload's Transition(Running) is refused and its handler forces Error again;
+   Run() returns an error, the state at its return is Error *)
+Example C08_ex_composite_failure_during_reload :
+  exists s, run composite_rstep (rinit cctl composite_init)
+                (map RC [CRunCall; CTBooting; CCb true; CTRunning; CReloadCall; CRlBegin; CRlT; CCb true;
+                         CChildFail; CSelChild; CRlApplyOk; CRlTRunning; CRlSetErr; CRlDone; CReloadRet;
+                         CRunRet false]) = Some s /\
+            c_run (rc s) = CPDone false Error /\ c_late (rc s) = false /\
+            hist (rm s) = [Booting; Running; Reloading; Error; Error].
+Proof. eexists. split; [vm_compute; reflexivity|]. repeat split; reflexivity. Qed.
+
+(* a child returns a real error in reaction to Stop(): Run() is past its select, the error is never read;
+   Run() returns nil, the state at its return is Stopped *)
+Example C08_ex_composite_error_on_stop :
+  exists s, run composite_rstep (rinit cctl composite_init)
+                (map RC [CRunCall; CTBooting; CCb true; CTRunning; CStopCall; CSelStop; CTStopping; CChildFail;
+                         CStopAllOk; CTStopped; CRunRet true; CStopRet]) = Some s /\
+            c_run (rc s) = CPDone true Stopped /\ c_child (rc s) = true /\ c_late (rc s) = false /\
+            hist (rm s) = [Booting; Running; Stopping; Stopped].
+Proof. eexists. split; [vm_compute; reflexivity|]. repeat split; reflexivity. Qed.
